@@ -2632,4 +2632,85 @@ theorem gen_loadClaims_accepts (opq : V2.Opq) (data : List Int) (ver : Int) (c :
     obtain ⟨hver, hc⟩ := h
     exact ⟨hver.symm, g, rfl, hc.symm⟩
 
+/-! ## C02: the typed decoders, as translated — `Decode`, then a type assertion -/
+
+/-- a typed decoder returns claims only if `Decode` returned exactly those claims (same value, no error) and they are
+of the decoder's own kind; in every other case it returns no claims and an error (or `Decode` panicked) -/
+theorem gen_decodeUser (opq : V2.Opq) (tok : Str) (u : V2.T_UserClaims) (e : Bool)
+    (h : V2.DecodeUserClaims tok opq = some (some u, e)) :
+    e = false ∧ V2.Decode tok opq = some (some (.UserClaims u), false) := by
+  unfold V2.DecodeUserClaims at h
+  rcases hd : V2.Decode tok opq with _ | ⟨cl, er⟩
+  · simp [hd] at h
+  · cases er <;> simp [hd] at h
+    rcases cl with _ | c
+    · simp at h
+    · cases c <;> simp at h
+      obtain ⟨h1, h2⟩ := h
+      subst h1; subst h2; exact ⟨rfl, rfl⟩
+
+theorem gen_decodeAccount (opq : V2.Opq) (tok : Str) (u : V2.T_AccountClaims) (e : Bool)
+    (h : V2.DecodeAccountClaims tok opq = some (some u, e)) :
+    e = false ∧ V2.Decode tok opq = some (some (.AccountClaims u), false) := by
+  unfold V2.DecodeAccountClaims at h
+  rcases hd : V2.Decode tok opq with _ | ⟨cl, er⟩
+  · simp [hd] at h
+  · cases er <;> simp [hd] at h
+    rcases cl with _ | c
+    · simp at h
+    · cases c <;> simp at h
+      obtain ⟨h1, h2⟩ := h
+      subst h1; subst h2; exact ⟨rfl, rfl⟩
+
+theorem gen_decodeOperator (opq : V2.Opq) (tok : Str) (u : V2.T_OperatorClaims) (e : Bool)
+    (h : V2.DecodeOperatorClaims tok opq = some (some u, e)) :
+    e = false ∧ V2.Decode tok opq = some (some (.OperatorClaims u), false) := by
+  unfold V2.DecodeOperatorClaims at h
+  rcases hd : V2.Decode tok opq with _ | ⟨cl, er⟩
+  · simp [hd] at h
+  · cases er <;> simp [hd] at h
+    rcases cl with _ | c
+    · simp at h
+    · cases c <;> simp at h
+      obtain ⟨h1, h2⟩ := h
+      subst h1; subst h2; exact ⟨rfl, rfl⟩
+
+theorem gen_decodeAuthRequest (opq : V2.Opq) (tok : Str) (u : V2.T_AuthorizationRequestClaims) (e : Bool)
+    (h : V2.DecodeAuthorizationRequestClaims tok opq = some (some u, e)) :
+    e = false ∧ V2.Decode tok opq = some (some (.AuthorizationRequestClaims u), false) := by
+  unfold V2.DecodeAuthorizationRequestClaims at h
+  rcases hd : V2.Decode tok opq with _ | ⟨cl, er⟩
+  · simp [hd] at h
+  · cases er <;> simp [hd] at h
+    rcases cl with _ | c
+    · simp at h
+    · cases c <;> simp at h
+      obtain ⟨h1, h2⟩ := h
+      subst h1; subst h2; exact ⟨rfl, rfl⟩
+
+theorem gen_decodeAuthResponse (opq : V2.Opq) (tok : Str) (u : V2.T_AuthorizationResponseClaims) (e : Bool)
+    (h : V2.DecodeAuthorizationResponseClaims tok opq = some (some u, e)) :
+    e = false ∧ V2.Decode tok opq = some (some (.AuthorizationResponseClaims u), false) := by
+  unfold V2.DecodeAuthorizationResponseClaims at h
+  rcases hd : V2.Decode tok opq with _ | ⟨cl, er⟩
+  · simp [hd] at h
+  · cases er <;> simp [hd] at h
+    rcases cl with _ | c
+    · simp at h
+    · cases c <;> simp at h
+      obtain ⟨h1, h2⟩ := h
+      subst h1; subst h2; exact ⟨rfl, rfl⟩
+
+/-! ## C05 / C12: `updateVersion` of the six typed kinds stamps the library version, whatever was there -/
+
+theorem gen_updateVersion (o : V2.T_OperatorClaims) (a : V2.T_AccountClaims) (u : V2.T_UserClaims)
+    (c : V2.T_ActivationClaims) (q : V2.T_AuthorizationRequestClaims) (r : V2.T_AuthorizationResponseClaims) :
+    (∃ o', V2.OperatorClaims_updateVersion o = some o' ∧ o'.f_Operator.f_GenericFields.f_Version = 2) ∧
+    (∃ a', V2.AccountClaims_updateVersion a = some a' ∧ a'.f_Account.f_GenericFields.f_Version = 2) ∧
+    (∃ u', V2.UserClaims_updateVersion u = some u' ∧ u'.f_User.f_GenericFields.f_Version = 2) ∧
+    (∃ c', V2.ActivationClaims_updateVersion c = some c' ∧ c'.f_Activation.f_GenericFields.f_Version = 2) ∧
+    (∃ q', V2.AuthorizationRequestClaims_updateVersion q = some q' ∧ q'.f_AuthorizationRequest.f_GenericFields.f_Version = 2) ∧
+    (∃ r', V2.AuthorizationResponseClaims_updateVersion r = some r' ∧ r'.f_AuthorizationResponse.f_GenericFields.f_Version = 2) :=
+  ⟨⟨_, rfl, rfl⟩, ⟨_, rfl, rfl⟩, ⟨_, rfl, rfl⟩, ⟨_, rfl, rfl⟩, ⟨_, rfl, rfl⟩, ⟨_, rfl, rfl⟩⟩
+
 end Jwt.FnTie
